@@ -47,8 +47,8 @@ def tables_json(layouts):
             for tid, cols in layouts.items()]
 
 
-def make_file(r, layouts, expanded, enc, blocked, trailer=True, nrows=None):
-    tids = list(layouts) + ['IP9999T1']          # one table present in the file without configuration
+def make_file(r, layouts, expanded, enc, blocked, trailer=True, nrows=None, noconf='IP9999T1'):
+    tids = list(layouts) + [noconf]          # one table present in the file without configuration
     subs = {}
     for t in tids:
         s = '%03d' % r.randrange(1000)
@@ -151,8 +151,14 @@ def _drive(args):
         blocked = bool(tid & 1)
         expanded = bool(tid & 2)
         trailer = tid % 17 != 5
-        fdata = make_file(r, layouts, expanded, enc, blocked, trailer, nrows=50 if tid % 10 == 0 else 8)
-        tables = list(layouts) + (['IP9999T1'] if tid % 7 == 3 else [])
+        # the table that is in the file but not in the caller's configuration: an unknown id, or (caller-supplied
+        # configurations only) an id that the PACKAGED configuration knows - the caller's configuration is what counts
+        noconf = 'IP9999T1'
+        pk = [t for t in PKG['mci_parameter_tables'] if t not in layouts]
+        if tid % 3 and tid % 2 and pk:
+            noconf = pk[(tid // 6) % len(pk)]
+        fdata = make_file(r, layouts, expanded, enc, blocked, trailer, nrows=50 if tid % 10 == 0 else 8, noconf=noconf)
+        tables = list(layouts) + ([noconf] if tid % 7 == 3 or noconf != 'IP9999T1' else [])
         for table in tables:
             via_csv = (tid + len(table) + tables.index(table)) % 3 == 0 and table in layouts
             kind, rows, raw = extract(fdata, table, layouts, enc, blocked, expanded, via_csv)
